@@ -134,6 +134,9 @@ func (prop) Generate(rng *core.Rand, tier string, emit func(string)) {
 	for c := 0; c < n/20; c++ {
 		genCfEnv(rng.Fork(), emit)
 	}
+	for c := 0; c < n/10; c++ {
+		genDial(rng.Fork(), emit)
+	}
 	for c := 0; c < n; c++ {
 		var sb strings.Builder
 		np := rng.Intn(9)
@@ -282,6 +285,9 @@ func (prop) Run(line string) core.Outcome {
 	}
 	if len(f) == 5 && f[0] == "httprw" {
 		return runRewrite(line, f)
+	}
+	if len(f) == 6 && f[0] == "httpdial" {
+		return runDial(line, f)
 	}
 	if len(f) == 5 && f[0] == "cfenv" {
 		return runCfEnv(line, f)
